@@ -451,7 +451,10 @@ class BaseParser:
         addition = {}
         result = {}
         inputs = {}
-        # the input value of each field that was given (ignored by no_input, excluded on error or parsed)
+        # what was given, in input order: for a field (under its name) the tuple (field, value, rank of the key in
+        # field.all_aliases) - of several accepted keys the first in field.all_aliases is used, as in
+        # field_first_parse; for an additional key (None, value, 0)
+        conflicts = {}
         dependencies = set()
         unprovided_fields = set()
         options = context.options
@@ -461,13 +464,28 @@ class BaseParser:
             field = self.get_field(key)
             if not field or field.positional_only:
                 # a positional-only param cannot be passed by keyword: its name is an ordinary additional key
-                add_value = self.parse_addition(key, value, context=context)
-                if not unprovided(add_value):
-                    addition[key] = add_value
+                inputs[key] = (None, value, 0)
                 continue
 
             name = field.attname if as_attname else field.name
-            inputs.setdefault(name, value)
+            rank = field.all_aliases.index(key if key in field.all_aliases else key.lower())
+
+            if name in inputs:
+                # the field is already given under another alias (or letter case)
+                _, used, used_rank = inputs[name]
+                if self._alias_conflict(used, value):
+                    conflicts.setdefault(name, value)
+                if rank >= used_rank:
+                    continue
+
+            inputs[name] = (field, value, rank)
+
+        for name, (field, value, _) in inputs.items():
+            if field is None:
+                add_value = self.parse_addition(name, value, context=context)
+                if not unprovided(add_value):
+                    addition[name] = add_value
+                continue
 
             if field.is_no_input(value, options=options):
                 # no input field does not take input from __init__
@@ -477,11 +495,9 @@ class BaseParser:
                     result[name] = default
                 continue
 
-            if not options.ignore_alias_conflicts:
-                if name in result:  # or (excluded_keys and name in excluded_keys):
-                    if self._alias_conflict(result[name], value):
-                        context.handle_error(exc.AliasConflictError(item=name, value=value))
-                    continue
+            if name in conflicts and not options.ignore_alias_conflicts:
+                # reported only for a field that does take the input
+                context.handle_error(exc.AliasConflictError(item=name, value=conflicts[name]))
 
             if excluded_keys and name in excluded_keys:
                 continue
